@@ -120,8 +120,8 @@ def check(ctx, replay=None):
                         continue
                     if fate.startswith("fail") or fate == "missing":
                         if first["rc"] == 0:
-                            ctx.violation("the disassembler failed (%s) but the profiler exited with status 0 and a profile of %s" % (fate, first["names"]),
-                                          {"fate": fate, "first": first, "how": "./check C17 quick"})
+                            # the statement constrains the NEXT run only: recorded, not a verdict
+                            ctx.note("the disassembler failed (%s) but the profiler exited with status 0 and a profile of %s" % (fate, first["names"]))
                     if second["rc"] == 0 and sorted(second["names"]) != sorted(want):
                         ctx.violation("after a first run with fate '%s'%s the next run printed the profile %s; a cold-cache run gives %s"
                                       % (fate, " and a rebuilt binary" if rebuilt else "", second["names"], want),
@@ -148,8 +148,7 @@ def check(ctx, replay=None):
                 continue
             cache = cmdfam.cache_path(b)
             if limit < total and first["rc"] == 0:
-                ctx.violation("a write to the cache failed (file size limit %d of %d bytes) but the profiler exited with status 0" % (limit, total),
-                              {"fate": "write fails beyond %d bytes" % limit, "first_run": first, "how": "./check C17 quick"})
+                ctx.note("a write to the cache failed (file size limit %d of %d bytes) but the profiler exited with status 0" % (limit, total))
             if second["rc"] == 0 and sorted(second["names"]) != sorted(want):
                 ctx.violation("after a first run whose cache write failed beyond %d of %d bytes the next run printed the profile %s; a cold-cache run gives %s"
                               % (limit, total, second["names"], want),
